@@ -173,6 +173,8 @@ class Live(JupyterMixin, RenderHook):
 
             if self.transient:
                 self.console.control(self._live_render.restore_cursor())
+            # the region on screen is final now: a later start() begins a fresh one below it
+            self._live_render._shape = None
             if self.ipy_widget is not None:  # pragma: no cover
                 if self.transient:
                     self.ipy_widget.close()
